@@ -1,6 +1,7 @@
 package rt
 
 import (
+	"bytes"
 	"encoding/json"
 	"fmt"
 	"io"
@@ -65,3 +66,5 @@ func catch(f func()) (p string) {
 }
 
 func jsonUnmarshal(raw []byte, v interface{}) error { return json.Unmarshal(raw, v) }
+
+func bytesBuf(b []byte) *bytes.Buffer { return bytes.NewBuffer(append([]byte{}, b...)) }
